@@ -685,7 +685,9 @@ def network(profile="exact", max_ops=6, dtypes=("int8", "int8", "int8", "uint8",
         n_ops = draw(st.integers(1, max_ops))
         menu = list(EXACT_OPS)
         if profile == "cpumix":  # NPU-supported operators interleaved with CPU-resident ones carrying populated option tables
-            menu = ["conv", "dw", "add", "maxpool", "relu", "reshape", "concat", "rich_cpu", "rich_cpu", "rich_cpu", "custom", "unsupported_conv", "unsupported_tconv", "gather", "tile", "fc", "mul_const"]
+            # (table-driven activations directly behind CPU-resident producers: an activation must not be folded into an operator that stays on the CPU)
+            menu = ["conv", "dw", "add", "maxpool", "relu", "reshape", "concat", "rich_cpu", "rich_cpu", "rich_cpu", "custom", "unsupported_conv", "unsupported_conv", "unsupported_pool", "unsupported_tconv",
+                    "gather", "tile", "fc", "mul_const", "tanh", "logistic", "lrelu"]
             n_ops = draw(st.integers(2, max_ops))
         if profile == "cascade":  # chains of spatial operators on tall planes: what the scheduler cascades and stripes
             menu = ["conv", "conv", "conv", "dw", "dw", "maxpool", "add_const", "relu", "add", "avgpool_valid", "padconv", "resize2"]
@@ -698,6 +700,10 @@ def network(profile="exact", max_ops=6, dtypes=("int8", "int8", "int8", "uint8",
             # several branches off shared tensors; memory-only operators (RESHAPE) whose input has other consumers, is a network input or is produced by a CPU operator cannot
             # be bypassed and become copies (Memcpy); every branch end is a model output
             pool, ends = [x], []
+            if draw(st.booleans()):
+                # the shared root is itself produced on the NPU (its consumers - direct ones and copies that cannot be bypassed - then meet inside one Ethos-U operator)
+                root = nb.conv(x) if draw(st.booleans()) else nb.unary(x, "RELU", same_q=True)
+                pool = [root, root, x]
             for b in range(draw(st.integers(2, 4))):
                 t = draw(st.sampled_from(pool))
                 plan = draw(st.sampled_from(["reshape", "reshape", "direct", "cpu_reshape", "double_reshape", "op_reshape"]))
@@ -917,6 +923,16 @@ def network(profile="exact", max_ops=6, dtypes=("int8", "int8", "int8", "uint8",
                 # a CONV_2D the NPU cannot take (stride 4 / batch 2 handled elsewhere): stays on the CPU with all its options
                 # the optional bias operand is sometimes left out (operand index -1): the operator stays on the CPU and must keep its operand list as it is
                 cur = nb.conv(cur, "conv", force_stride=(4, 4), no_bias=draw(st.booleans())) if r4 and X["shape"][1] >= 1 else nb.unary(cur, "RELU", same_q=True)
+            elif kind == "unsupported_pool":
+                # MAX_POOL_2D / AVERAGE_POOL_2D with stride 4: stays on the CPU, no fused activation
+                if r4 and X["shape"][1] >= 1 and X["dtype"] != "int16":
+                    code = draw(st.sampled_from(["MAX_POOL_2D", "AVERAGE_POOL_2D"]))
+                    n_, h_, w_, c_ = X["shape"]
+                    o = nb.out("cpu_pool", [n_, -(-h_ // 4), -(-w_ // 4), c_], X["dtype"], (X["scale"], X["zp"]))
+                    nb.op(code, [cur], [o], "Pool2DOptions", dict(Padding=0, StrideW=4, StrideH=4, FilterWidth=draw(st.integers(1, 3)), FilterHeight=draw(st.integers(1, 3)), FusedActivationFunction=0), version=2)
+                    cur = o
+                else:
+                    cur = nb.unary(cur, "RELU", same_q=True)
             elif kind == "unsupported_tconv":
                 cur = nb.tconv(cur, force_stride=draw(st.sampled_from([3, 4]))) if r4 and X["shape"][1] * X["shape"][2] <= 64 and X["dtype"] != "int16" else nb.unary(cur, "RELU", same_q=True)
             elif kind == "float_chain":
